@@ -13,7 +13,8 @@ for d in sorted(glob.glob(os.path.join(ROOT, "seeded", "C*_*"))):
     r = reg.get(sid, {})
     first_missed = "missed" in m["caught_by"].lower()
     how = ", ".join(r.get("replay_kinds", [])) or "?"
-    rows.append(f"| {sid} | {title[:110].replace('|', '/')} | {'yes' if r.get('caught') else 'NO'} | {how} | "
+    caught_txt = 'yes' if r.get('caught') else ('no (by design)' if m.get('not_catchable_by_design') else 'NO')
+    rows.append(f"| {sid} | {title[:110].replace('|', '/')} | {caught_txt} | {how} | "
                 f"{r.get('disagreements')} / {r.get('oracle_failures')} | {'**yes**' if first_missed else 'no'} |")
 strengthened = [json.load(open(os.path.join(d, "meta.json")))["caught_by"] for d in sorted(glob.glob(os.path.join(ROOT, "seeded", "C*_*")))
                 if "missed" in json.load(open(os.path.join(d, "meta.json")))["caught_by"].lower()]
@@ -28,7 +29,8 @@ it was stored as `seeded/<id>/` (`patch.diff`, `demo/`, `notes.md`, `meta.json`)
 committed to `/repo`.  `tools/seed_regression.py` applies each in turn to a scratch worktree of `/repo`'s HEAD, runs the quick
 check of its property against it (`SLT_REPO`), and writes `seeded/REGRESSION.json`; the table below is
 generated from that file (last run at `/repo` {next(iter(reg.values()))['repo_head']}: every change is caught by the
-quick tier).  "How" names the replay kinds the check produced: `diff_<profile>` = the model and the
+quick tier, except the three marked "by design": they add a new opt-in environment variable and show
+only when it is set, which no check written for the current tree can do).  "How" names the replay kinds the check produced: `diff_<profile>` = the model and the
 implementation disagree on a generated case of that profile (rule K), `oracle_<profile>` = an
 oracle on the implementation alone fails (rule O); no seeded change was caught by a proof
 obligation alone, because none of them touches the Lean model — a change to `/repo` shows up
